@@ -1,6 +1,7 @@
 package main
 
 import (
+	"math/big"
 	"encoding/json"
 	"fmt"
 	"math"
@@ -283,11 +284,17 @@ func (g *g16) fill(t *ty16, v reflect.Value, depth int) {
 		}
 	case "time":
 		ms := r.Int63n(2_000_000_000_000) // any millisecond
+		switch r.Intn(8) {
+		case 0:
+			ms = -r.Int63n(2_000_000_000_000) // before 1970
+		case 1:
+			ms = r.Int63n(250_000_000_000_000) - 60_000_000_000_000 // years 68 .. 9892: far outside what int64 nanoseconds can hold
+		}
 		sub := int64(0)
 		if r.Intn(3) == 0 {
 			sub = int64(r.Intn(1_000_000))
 		}
-		tm := time.Unix(0, ms*1_000_000+sub).UTC()
+		tm := time.UnixMilli(ms).Add(time.Duration(sub)).UTC()
 		if r.Intn(4) == 0 {
 			tm = tm.In(time.FixedZone("x", 3600))
 		}
@@ -387,7 +394,14 @@ func gvalOf(v reflect.Value) string {
 			return "XTime0"
 		}
 		_, off := tm.Zone()
-		return fmt.Sprintf("(XTime %s %s)", gal.Z(tm.UnixNano()), gal.Bool(off == 0 && tm.Location() == time.UTC))
+		// nanoseconds since the epoch as an exact integer (UnixNano overflows beyond +-292 years)
+		ns := new(big.Int).Mul(big.NewInt(tm.UnixMilli()), big.NewInt(1_000_000))
+		ns.Add(ns, big.NewInt(int64(tm.Nanosecond()%1_000_000)))
+		nz := ns.String() + "%Z"
+		if ns.Sign() < 0 {
+			nz = "(" + ns.String() + ")%Z"
+		}
+		return fmt.Sprintf("(XTime %s %s)", nz, gal.Bool(off == 0 && tm.Location() == time.UTC))
 	case rt == tDur:
 		return "(XDur " + gal.Z(v.Int()) + ")"
 	}
